@@ -285,34 +285,50 @@ where
             .delivery_tag
             .clone()
             .ok_or(LinkStateError::IllegalState)?;
-        let settled = self
-            .send_transfer_without_modifying_unsettled_map(writer, transfer, payload)
-            .await?;
-        match settled {
-            true => Ok(Settlement::Settled(delivery_tag)),
-            // If not set on the first (or only) transfer for a (multi-transfer)
-            // delivery, then the settled flag MUST be interpreted as being false.
-            false => {
-                let (mut tx, rx) = oneshot::channel();
-                {
-                    let mut guard = self.unsettled.write();
-                    // The session may have stopped (and woken the waiters it knew of)
-                    // after it took the transfer
-                    if self.session_stop_reason.get().is_some() {
-                        tx = oneshot::channel().0;
-                    }
-                    let unsettled = UnsettledMessage::new(payload_copy, None, message_format, tx);
-                    guard
-                        .get_or_insert(OrderedMap::new())
-                        .insert(delivery_tag.clone(), unsettled);
-                }
-
-                Ok(Settlement::Unsettled {
-                    delivery_tag,
-                    outcome: rx,
-                })
-            }
+        // If not set on the first (or only) transfer for a (multi-transfer)
+        // delivery, then the settled flag MUST be interpreted as being false.
+        let settled = transfer.settled.unwrap_or(match self.snd_settle_mode {
+            SenderSettleMode::Settled => true,
+            SenderSettleMode::Unsettled => false,
+            SenderSettleMode::Mixed => false,
+        });
+        if settled {
+            self.send_transfer_without_modifying_unsettled_map(writer, transfer, payload)
+                .await?;
+            return Ok(Settlement::Settled(delivery_tag));
         }
+
+        // Register the delivery as unsettled *before* the session gets the transfer. Once
+        // the transfer is handed over, the peer's disposition can come back and be applied
+        // by the session task before this task runs again (another worker thread, or simply
+        // a task that is not scheduled for a while); a disposition for a delivery that is
+        // not in the map yet is lost and the outcome would never resolve.
+        let (mut tx, rx) = oneshot::channel();
+        {
+            let mut guard = self.unsettled.write();
+            // The session may have stopped (and woken the waiters it knew of) already
+            if self.session_stop_reason.get().is_some() {
+                tx = oneshot::channel().0;
+            }
+            let unsettled = UnsettledMessage::new(payload_copy, None, message_format, tx);
+            guard
+                .get_or_insert(OrderedMap::new())
+                .insert(delivery_tag.clone(), unsettled);
+        }
+        // ... and take it out again if the transfer never reaches the session (an error, or
+        // this future is dropped while it waits for room in the channel)
+        let mut registered = UnsettledEntryGuard {
+            unsettled: &self.unsettled,
+            delivery_tag: Some(delivery_tag.clone()),
+        };
+        self.send_transfer_without_modifying_unsettled_map(writer, transfer, payload)
+            .await?;
+        registered.delivery_tag = None;
+
+        Ok(Settlement::Unsettled {
+            delivery_tag,
+            outcome: rx,
+        })
     }
 
     async fn dispose(
@@ -442,6 +458,23 @@ where
 /// # Cancel safety
 ///
 /// This is cancel safe because it only involves `.await` on sending over `tokio::mpsc::Sender`
+/// Removes a delivery from the unsettled map unless disarmed: the entry is made before the
+/// transfer is handed to the session and must not outlive a hand-over that did not happen
+struct UnsettledEntryGuard<'a> {
+    unsettled: &'a ArcSenderUnsettledMap,
+    delivery_tag: Option<DeliveryTag>,
+}
+
+impl Drop for UnsettledEntryGuard<'_> {
+    fn drop(&mut self) {
+        if let Some(delivery_tag) = self.delivery_tag.take() {
+            if let Some(map) = self.unsettled.write().as_mut() {
+                map.swap_remove(&delivery_tag);
+            }
+        }
+    }
+}
+
 #[inline]
 async fn send_transfer(
     writer: &mpsc::Sender<LinkFrame>,
